@@ -626,7 +626,18 @@ def long_shapes(spec, pk, tier):
     'long lists' and boundary values; a prefix read back as a signed byte is invisible below 128)"""
     out = []
     has_dyn = any(spec.resolve(f)[0] == 'dyn' for f in pk.fields)
-    has_rep = any(f.repeat for f in pk.fields)
+    def lists_inside(q, depth=0):
+        if depth > 6:
+            return True
+        for g in q.fields:
+            sem = spec.resolve(g)
+            if sem[0] == 'obj' and (g.repeat and depth > 0 or lists_inside(sem[1], depth + 1)):
+                return True
+            if g.repeat and depth > 0:
+                return True
+        return False
+    # a list length applies at every nesting level: 255 elements of 255 elements is outside the bound, such packets keep the short shapes
+    has_rep = any(f.repeat for f in pk.fields) and not any(spec.resolve(f)[0] == 'obj' and lists_inside(spec.resolve(f)[1], 1) for f in pk.fields)
     if spec.strpfx() == 'u8' and has_dyn:
         out += [Shape(n, 1) for n in ((200,) if tier == 'quick' else (127, 128, 255))]
     if spec.listpfx() == 'u8' and has_rep:
@@ -652,6 +663,9 @@ def field_vars(v):
 def worker(job):
     prop, tier, pname = job
     t0 = time.time()
+    if os.environ.get('VERIF_TIMING'):
+        sys.stderr.write('START %s %d\n' % (pname, os.getpid()))
+        sys.stderr.flush()
     core.STATS.__init__()
     del core.XSAMPLES[:]
     core._XSEEN[0] = 0
@@ -786,7 +800,7 @@ def worker(job):
     out['stats'] = core.STATS.as_dict()
     out['xsamples'] = list(core.XSAMPLES)
     out['wall'] = time.time() - t0
-    if out['wall'] > 120 and os.environ.get('VERIF_TIMING'):
+    if os.environ.get('VERIF_TIMING'):
         sys.stderr.write('SLOW %s %s %.0fs cells=%d\n' % (prop, pname, out['wall'], out['cells']))
         sys.stderr.flush()
     return out
